@@ -32,7 +32,7 @@ enum Ty { T_NONE = 0, T_BOOL, T_INT, T_UINT, T_LONG, T_ULONG, T_LL, T_ULL, T_DOU
 static const char* const tyNames[] = { "none", "bool", "int", "uint", "long", "ulong", "ll", "ull", "double", "string", "ptr", "cptr", "fptr", "mem", "obj" };
 struct Param { const char* name; Ty ty; };
 struct Fn { const char* name; int np; Param p[3]; Ty ret; bool out; Ty outTy; };
-static const Fn FNS[8] = {
+static const Fn FNS[9] = {
     { "fn0", 0, { { 0, T_NONE }, { 0, T_NONE }, { 0, T_NONE } }, T_NONE, false, T_NONE },
     { "fn1", 1, { { "a", T_INT }, { 0, T_NONE }, { 0, T_NONE } }, T_INT, true, T_INT },
     { "fn2", 2, { { "a", T_INT }, { "s", T_STRING }, { 0, T_NONE } }, T_STRING, false, T_NONE },
@@ -41,8 +41,9 @@ static const Fn FNS[8] = {
     { "fn5", 2, { { "m", T_MEM }, { "ll", T_LL }, { 0, T_NONE } }, T_LL, false, T_NONE },
     { "fn6", 2, { { "t", T_OBJ }, { "ul", T_ULONG }, { 0, T_NONE } }, T_ULONG, true, T_OBJ },
     { "fn7", 3, { { "cp", T_CPTR }, { "fp", T_FPTR }, { "ull", T_ULL } }, T_CPTR, false, T_NONE },
+    { "fn8", 1, { { "k", T_INT }, { 0, T_NONE }, { 0, T_NONE } }, T_INT, false, T_NONE },      // one parameter, no output parameter: its short form is a call that is complete the moment it is named
 };
-enum { N_FN = 8 };
+enum { N_FN = 9 };
 
 // value pools: index -> concrete value (the description stores indexes, so shrinking and printing stay simple)
 static const long long intPool[] = { 0, 1, -1, 7, INT_MAX, INT_MIN, 42, 1000 };
@@ -100,6 +101,8 @@ struct ExpPlan { int fn; int count; int flags; int obj; Vec<int> vals; int ret; 
 struct Scenario { bool strict, ignoreOther, useScope, preFail; bool otherVal /* also read a value through the other mock support (known finding C19-support-level-value-of-other-scope) */; int rounds; int type2 /* fn6's object parameter uses a second custom type: same equality function, other to-string */, tol /* 0 none, else index into tolPool for fn3's double parameter */; Vec<ExpPlan> exps; Vec<CallPlan> calls; Vec<Op> data; };
 
 static const char* objType(const Scenario& sc) { return sc.type2 ? "MyType2" : "MyType"; }
+// how many parameters an expectation specifies: all, or all but the last for ignoreOtherParameters (functions with two or more) and for the short form (functions with one or more)
+static int specCount(const Fn& F, int flags) { if ((flags & 4) && F.np >= 1) return F.np - 1; if ((flags & 1) && F.np > 1) return F.np - 1; return F.np; }
 struct Front {
     virtual ~Front() {}
     virtual const char* id() = 0;
@@ -160,7 +163,7 @@ struct CppFront : public Front {
         if (e.count == 0 && !(e.flags & 8)) { m(sc, e.scope).expectNoCall(F.name); return; }
         MockExpectedCall& x = e.count == 1 ? m(sc, e.scope).expectOneCall(F.name) : m(sc, e.scope).expectNCalls((unsigned)e.count, F.name);
         if (e.obj) x.onObject(objectPtr(e.obj));
-        int np = (e.flags & 5) ? (F.np > 1 ? F.np - 1 : F.np) : F.np;     // ignoreOtherParameters / short form: the last parameter is left unspecified
+        int np = specCount(F, e.flags);     // ignoreOtherParameters / short form: the last parameter is left unspecified
         for (int k = 0; k < np; k++) {
             int v = e.vals[(size_t)k] & 7;
             switch (F.p[k].ty) {
@@ -206,7 +209,7 @@ struct CppFront : public Front {
         if (c.obj && c.dev != "noobject") x.onObject(objectPtr(c.dev == "object" ? otherObject(c.obj) : c.obj));
         for (int k = 0; k < F.np; k++) {
             if (c.dev == sfmt("omit:%d", k)) continue;
-            if (c.shortForm && F.np > 1 && k == F.np - 1) continue;
+            if (c.shortForm && F.np >= 1 && k == F.np - 1) continue;
             int v = c.vals[(size_t)k] & 7; const char* pn = paramNameFor(F, k, c.dev);
             switch (F.p[k].ty) {
             case T_BOOL: x.withParameter(pn, (v & 1) != 0); break;
@@ -323,7 +326,7 @@ struct CFront : public Front {
         const Fn& F = FNS[e.fn];
         if (e.count == 0 && !(e.flags & 8)) { m(sc, e.scope)->expectNoCall(F.name); return; }
         MockExpectedCall_c* x = e.count == 1 ? m(sc, e.scope)->expectOneCall(F.name) : m(sc, e.scope)->expectNCalls((unsigned)e.count, F.name);
-        int np = (e.flags & 5) ? (F.np > 1 ? F.np - 1 : F.np) : F.np;
+        int np = specCount(F, e.flags);
         for (int k = 0; k < np; k++) {
             int v = e.vals[(size_t)k] & 7;
             switch (F.p[k].ty) {
@@ -368,7 +371,7 @@ struct CFront : public Front {
         (void)((sc.useScope || c.scope) ? mock_c() : mock_scope_c("scope1"))->hasReturnValue(); (void)m(sc, c.scope);
         for (int k = 0; k < F.np; k++) {
             if (c.dev == sfmt("omit:%d", k)) continue;
-            if (c.shortForm && F.np > 1 && k == F.np - 1) continue;
+            if (c.shortForm && F.np >= 1 && k == F.np - 1) continue;
             int v = c.vals[(size_t)k] & 7; const char* pn = paramNameFor(F, k, c.dev);
             switch (F.p[k].ty) {
             case T_BOOL: x->withBoolParameters(pn, (v & 1) ? 4 : 0); break;      // in C every non-zero int is true
@@ -554,15 +557,16 @@ struct Engine : public vf::Engine {
             int nExp = (int)w.small(1, 12);
             bool useObjects[N_FN]; bool ignoreParams[N_FN];
             for (int i = 0; i < N_FN; i++) { useObjects[i] = !cfront && w.chance(1, 5); ignoreParams[i] = w.chance(1, 8); }
+            if (!cfront && w.chance(1, 16)) { fns[0] = 8; if (nFn > 1 && w.chance(1, 2)) nFn = 1; useObjects[8] = true; ignoreParams[8] = false; shortForms = true; }      // a one-parameter function with expectations on objects, on no object, with and without the parameter: tentative matches before the object is known
             Vec<Str> classes;   // "fn|obj|vals" of every expectation class so far
             int totalCalls = 0;
             for (int e = 0; e < nExp && totalCalls < 24; e++) {
                 Op o; o.kind = M_EXPECT; o.a = fns[w.below((uint64_t)nFn)]; const Fn& F = FNS[o.a];
                 o.b = w.chance(1, 12) ? 0 : w.small(1, 4);
-                o.d = useObjects[o.a] ? w.range(1, 4) : 0;
+                o.d = useObjects[o.a] ? (w.chance(1, 4) ? 0 : w.range(1, 4)) : 0;      // with objects in play a quarter of the expectations still name none
                 Vec<int> vals; for (int k = 0; k < F.np; k++) vals.push_back((int)w.below(F.p[k].ty == T_BOOL ? 2 : (F.p[k].ty == T_FPTR ? 4 : 7)));
                 if (ignoreParams[o.a] && F.np > 1) o.c = 1;
-                else if (shortForms && F.np > 1 && w.chance(1, 3)) o.c = 4;           // short form: S = L minus its last parameter
+                else if (shortForms && F.np >= 1 && w.chance(1, 3)) o.c = 4;           // short form: S = L minus its last parameter
                 if (mixedScopes && w.chance(1, 2)) o.c |= 2;
                 Vec<int> keyVals = vals; if (o.c & 5) keyVals.pop_back();
                 Str key = sfmt("%d|%d|%d|%d|", (int)o.a, (int)o.d, (int)(o.c & 2), (int)(o.c & 4)) + joinIdx(keyVals);
@@ -655,7 +659,7 @@ struct Engine : public vf::Engine {
         // returns false when the scenario is outside the property's precondition (ambiguous matching)
         for (size_t i = 0; i < sc.exps.size(); i++) {
             const ExpPlan& e = sc.exps[i]; const Fn& F = FNS[e.fn];
-            Cls c; c.fn = e.fn; c.scope = (sc.useScope || e.scope) ? 1 : 0; c.obj = e.count == 0 ? 0 : e.obj; c.vals = e.vals; c.ignoreOther = (e.flags & 1) != 0; c.nSpec = e.count == 0 ? 0 : ((e.flags & 5) && F.np > 1 ? F.np - 1 : F.np);
+            Cls c; c.fn = e.fn; c.scope = (sc.useScope || e.scope) ? 1 : 0; c.obj = e.count == 0 ? 0 : e.obj; c.vals = e.vals; c.ignoreOther = (e.flags & 1) != 0; c.nSpec = e.count == 0 ? 0 : specCount(F, e.flags);
             if (sc.strict && e.scope && !sc.useScope) return false;     // strict order is only generated for single-scope scenarios
             if (e.obj < 0 || e.obj > 4) return false;
             c.capacity = c.total = e.count; c.ret = e.ret & 7; c.firstExp = i;
@@ -670,7 +674,12 @@ struct Engine : public vf::Engine {
         for (size_t a = 0; a < cls.size(); a++) for (size_t b = a + 1; b < cls.size(); b++) if (cls[a].fn == cls[b].fn && cls[a].scope == cls[b].scope) {
             if (cls[a].ignoreOther || cls[b].ignoreOther) return false;          // an ignore-other-parameters expectation must be the only class of its function
             if (cls[a].total == 0 || cls[b].total == 0) return false;          // expectNoCall next to real expectations
-            if ((cls[a].obj != 0) != (cls[b].obj != 0)) return false;          // object / no-object mix: a call on the object matches both
+            if ((cls[a].obj != 0) != (cls[b].obj != 0)) {                       // object / no-object mix: a call on the object relates to both
+                bool differ = false; int common = cls[a].nSpec < cls[b].nSpec ? cls[a].nSpec : cls[b].nSpec;
+                for (int q = 0; q < common; q++) if (!valueEq(FNS[cls[a].fn].p[q].ty, cls[a].vals[(size_t)q], cls[b].vals[(size_t)q])) differ = true;
+                if (!differ && cls[a].nSpec == cls[b].nSpec) return false;      // same parameters: the call on the object matches both
+                probe("object_and_no_object_expectations_on_one_function");
+            }
         }
         return true;
     }
@@ -687,7 +696,7 @@ struct Engine : public vf::Engine {
                 x.pass = false; x.admissible.insert("unexpected_call"); return;
             }
             bool hasObj; int obj; Vec<Passed> ps; concreteCall(c, hasObj, obj, ps);
-            if (c.shortForm && FNS[c.fn].np > 1) { Vec<Passed> keep; for (size_t q = 0; q < ps.size(); q++) if (ps[q].name != paramNameFor(FNS[c.fn], FNS[c.fn].np - 1, c.dev)) keep.push_back(ps[q]); ps = keep; }
+            if (c.shortForm && FNS[c.fn].np >= 1) { Vec<Passed> keep; for (size_t q = 0; q < ps.size(); q++) if (ps[q].name != paramNameFor(FNS[c.fn], FNS[c.fn].np - 1, c.dev)) keep.push_back(ps[q]); ps = keep; }
             // candidates: open classes of the function, pruned the way a reader of the call would
             Vec<size_t> cand; bool anyFulfilled = false;
             for (size_t k = 0; k < cls.size(); k++) if (cls[k].fn == c.fn && cls[k].scope == cscope) { if (cls[k].capacity > 0) cand.push_back(k); if (cls[k].capacity < cls[k].total) anyFulfilled = true; }
